@@ -756,7 +756,6 @@ func parseOPL(text string) (nn []namespace.Namespace, errs []string) {
 	return nn, errs
 }
 
-
 func runC01Replaced(run *runner, idx int64, env *Env, st *instrStore, eng *check.Engine, maxDepth int) string {
 	p := run.p
 	cc2 := genCheckCase(p.rng(idx, "replacement"), idx+8, nil)
